@@ -340,6 +340,8 @@ pub fn workload_strategy() -> impl Strategy<Value = Workload> {
     let blocks = prop_oneof![
         // all-small, tiny workloads: very many rounds
         3 => prop::collection::vec((1usize..256, 0u8..5), 1..12),
+        // small over-aligned blocks (memalign path: leader / trailer handling), very many rounds
+        2 => prop::collection::vec((1usize..600, prop_oneof![3 => Just(5u8), 2 => Just(6u8), 1 => 7u8..10]), 2..24),
         3 => prop::collection::vec((size_class(), prop_oneof![4 => 0u8..5, 1 => 5u8..13]), 1..60),
         1 => prop::collection::vec((size_class(), 0u8..5), 60..200),
         2 => prop::collection::vec(((100usize << 10)..(4 << 20), 0u8..5), 1..12),
